@@ -155,7 +155,7 @@ def env_world(case, instance):
     )
 
 
-def env_drive(env, inst, history, limit, trace=None):
+def env_drive(env, inst, history, limit, trace=None, direct=False):
     model = ref(inst)
     n = model.n_ops if limit is None else min(limit, model.n_ops)
     for k in range(n):
@@ -164,6 +164,11 @@ def env_drive(env, inst, history, limit, trace=None):
         j, p = ready[a % len(ready)]
         ms = inst["machines"][j][p]
         m = ms[b % len(ms)]
+        if direct:
+            # (a warm start played on the environment's public dispatcher)
+            env.dispatcher.dispatch(env.dispatcher.instance.jobs[j][p], m)
+            model.apply(j, m)
+            continue
         o, r, done, trunc, info = env.step((j, m))
         model.apply(j, m)
         if trace is not None:
@@ -222,8 +227,10 @@ def check_case(case, ctx):
     # ---- environment level
     env_a, env_b = env_world(case, build_instance(inst)), env_world(case, build_instance(inst))
     env_a.reset()
-    for hist, limit in case["abandoned"]:
-        env_drive(env_a, inst, hist, limit)
+    for k_ab, (hist, limit) in enumerate(case["abandoned"]):
+        # every other abandoned history is played on env.dispatcher directly
+        # (a rule-based warm start) instead of through env.step
+        env_drive(env_a, inst, hist, limit, direct=bool((k_ab + len(hist)) % 2))
         o_a, info_a = env_a.reset()
         ctx.count("env_resets")
     if case["env"]["fresh_reset"]:
